@@ -874,7 +874,7 @@ static PyObject* gemv(PyObject *self, PyObject *args, PyObject *kwrds)
     matrix *A, *x, *y;
     PyObject *ao=NULL, *bo=NULL;
     number a, b;
-    int m=-1, n=-1, ldA=0, ix=1, iy=1, oA=0, ox=0, oy=0;
+    int m=-1, n=-1, ldA=0, ix=1, iy=1, oA=0, ox=0, oy=0, iy_abs;
 #if PY_MAJOR_VERSION >= 3
     int trans_ = 'N';
 #endif
@@ -906,6 +906,10 @@ static PyObject* gemv(PyObject *self, PyObject *args, PyObject *kwrds)
 
     if (ix == 0) err_nz_int("incx");
     if (iy == 0) err_nz_int("incy");
+
+    /* xSCAL does nothing for a nonpositive increment; y := beta*y below
+       addresses the same entries of y with the increment |incy|. */
+    iy_abs = abs(iy);
 
     if (m < 0) m = A->nrows;
     if (n < 0) n = A->ncols;
@@ -939,11 +943,11 @@ static PyObject* gemv(PyObject *self, PyObject *args, PyObject *kwrds)
             if (!bo) b.d=0.0;
             if (trans == 'N' && n == 0)
                 Py_BEGIN_ALLOW_THREADS
-                dscal_(&m, &b.d, MAT_BUFD(y)+oy, &iy);
+                dscal_(&m, &b.d, MAT_BUFD(y)+oy, &iy_abs);
                 Py_END_ALLOW_THREADS
             else if ((trans == 'T' || trans == 'C') && m == 0)
                 Py_BEGIN_ALLOW_THREADS
-                dscal_(&n, &b.d, MAT_BUFD(y)+oy, &iy);
+                dscal_(&n, &b.d, MAT_BUFD(y)+oy, &iy_abs);
                 Py_END_ALLOW_THREADS
             else
                 Py_BEGIN_ALLOW_THREADS
@@ -962,11 +966,11 @@ static PyObject* gemv(PyObject *self, PyObject *args, PyObject *kwrds)
 #endif
             if (trans == 'N' && n == 0)
                 Py_BEGIN_ALLOW_THREADS
-                zscal_(&m, &b.z, MAT_BUFZ(y)+oy, &iy);
+                zscal_(&m, &b.z, MAT_BUFZ(y)+oy, &iy_abs);
                 Py_END_ALLOW_THREADS
             else if ((trans == 'T' || trans == 'C') && m == 0)
                 Py_BEGIN_ALLOW_THREADS
-                zscal_(&n, &b.z, MAT_BUFZ(y)+oy, &iy);
+                zscal_(&n, &b.z, MAT_BUFZ(y)+oy, &iy_abs);
                 Py_END_ALLOW_THREADS
             else
                 Py_BEGIN_ALLOW_THREADS
@@ -1026,7 +1030,7 @@ static PyObject* gbmv(PyObject *self, PyObject *args, PyObject *kwrds)
     matrix *A, *x, *y;
     PyObject *ao=NULL, *bo=NULL;
     number a, b;
-    int m, kl, ku=-1, n=-1, ldA=0, ix=1, iy=1, oA=0, ox=0, oy=0;
+    int m, kl, ku=-1, n=-1, ldA=0, ix=1, iy=1, oA=0, ox=0, oy=0, iy_abs;
 #if PY_MAJOR_VERSION >= 3
     int trans_ = 'N';
 #endif
@@ -1059,6 +1063,10 @@ static PyObject* gbmv(PyObject *self, PyObject *args, PyObject *kwrds)
 
     if (ix == 0) err_nz_int("incx");
     if (iy == 0) err_nz_int("incy");
+
+    /* xSCAL does nothing for a nonpositive increment; y := beta*y below
+       addresses the same entries of y with the increment |incy|. */
+    iy_abs = abs(iy);
     if (n < 0) n = A->ncols;
     if ((!m && trans == 'N') || (!n && (trans == 'T' || trans == 'C')))
        return Py_BuildValue("");
@@ -1093,11 +1101,11 @@ static PyObject* gbmv(PyObject *self, PyObject *args, PyObject *kwrds)
             if (!bo) b.d=0.0;
             if (trans == 'N' && n == 0)
                 Py_BEGIN_ALLOW_THREADS
-                dscal_(&m, &b.d, MAT_BUFD(y)+oy, &iy);
+                dscal_(&m, &b.d, MAT_BUFD(y)+oy, &iy_abs);
                 Py_END_ALLOW_THREADS
             else if ((trans == 'T' || trans == 'C') && m == 0)
                 Py_BEGIN_ALLOW_THREADS
-                dscal_(&n, &b.d, MAT_BUFD(y)+oy, &iy);
+                dscal_(&n, &b.d, MAT_BUFD(y)+oy, &iy_abs);
                 Py_END_ALLOW_THREADS
             else
                 Py_BEGIN_ALLOW_THREADS
@@ -1116,11 +1124,11 @@ static PyObject* gbmv(PyObject *self, PyObject *args, PyObject *kwrds)
 #endif
             if (trans == 'N' && n == 0)
                 Py_BEGIN_ALLOW_THREADS
-                zscal_(&m, &b.z, MAT_BUFZ(y)+oy, &iy);
+                zscal_(&m, &b.z, MAT_BUFZ(y)+oy, &iy_abs);
                 Py_END_ALLOW_THREADS
             else if ((trans == 'T' || trans == 'C') && m == 0)
                 Py_BEGIN_ALLOW_THREADS
-                zscal_(&n, &b.z, MAT_BUFZ(y)+oy, &iy);
+                zscal_(&n, &b.z, MAT_BUFZ(y)+oy, &iy_abs);
                 Py_END_ALLOW_THREADS
             else
                 Py_BEGIN_ALLOW_THREADS
